@@ -195,6 +195,9 @@ pub struct Session<'a> {
     pub truncate: bool,
     /// a signal sent at the prompt that the next resuming command must run into
     pub pending_sig: Option<i32>,
+    /// addresses requested more than once under different numbers (e.g. by line and by address
+    /// before start): which number survives is the debugger's choice, not judged
+    pub ambiguous_number: BTreeSet<u64>,
     /// the text ledger had no complaint after the previous operation
     pub ledger_clean_before_op: bool,
     /// companion breakpoints learned from the text ledger: address -> watch numbers
@@ -259,6 +262,7 @@ impl<'a> Session<'a> {
             scoped_added_at: BTreeMap::new(),
             truncate: false,
             pending_sig: None,
+            ambiguous_number: BTreeSet::new(),
             ledger_clean_before_op: true,
             companions: BTreeMap::new(),
         })
@@ -410,6 +414,11 @@ impl<'a> Session<'a> {
     fn learn_set(&mut self, views: Vec<(u64, u32)>) -> BTreeSet<u64> {
         let mut s = BTreeSet::new();
         for (a, n) in views {
+            if let Some(old) = self.armed.get(&a) {
+                if *old != n {
+                    self.ambiguous_number.insert(a);
+                }
+            }
             self.armed.insert(a, n);
             s.insert(a);
         }
@@ -641,7 +650,7 @@ impl<'a> Session<'a> {
             Op::RmNum(n) => match dbg.remove_breakpoint_by_number(*n) {
                 Ok(v) => {
                     let removed: Vec<u64> = v.iter().map(|b| self.abs(b.addr)).collect();
-                    let exp: BTreeSet<u64> = self.armed.iter().filter(|(_, num)| *num == n).map(|(a, _)| *a).collect();
+                    let exp: BTreeSet<u64> = self.armed.iter().filter(|(a, num)| *num == n && !self.ambiguous_number.contains(a)).map(|(a, _)| *a).collect();
                     self.model_remove("RmNum", removed, Some(exp));
                     Outcome::Done
                 }
@@ -1229,7 +1238,7 @@ impl<'a> Session<'a> {
                             if *pc != p.rip {
                                 self.violate("C01", "hook_pc", format!("on_breakpoint pc {} expected {}", self.off(*pc), self.off(p.rip)));
                             }
-                            if self.armed.get(&p.rip) != Some(num) {
+                            if self.armed.get(&p.rip) != Some(num) && !self.ambiguous_number.contains(&p.rip) {
                                 self.violate("C01", "hook_number", format!("on_breakpoint number {num} expected {:?}", self.armed.get(&p.rip)));
                             }
                         }
